@@ -187,6 +187,8 @@ def main(tier, seed):
         feats = {}
         texts = {}
         for o, a, m in zip(ops, it, mt):
+            if unjudged(a, m):
+                rep.count("skipped-resource-limit"); continue
             rep.count("emitted-text")
             if a.startswith("ok ") and m.startswith("ok "):
                 ta = dec_text(a[3:]); tm = dec_text(m[3:])
@@ -211,7 +213,8 @@ def main(tier, seed):
                 if src is None: continue          # optimiser reported an encoding error: no program is emitted
                 jobs.append([src, stdins, tmp, "p%d_%d" % (k, lvl), 2, None]); meta.append((k, lvl, stdins))
         spec = model_exec(want_ops, spec=True, timeout=900)
-        want = {o: summarize(s) for o, s in zip(want_ops, spec)}
+        want = {o: (summarize(s) if not unjudged(s) else ("", "", "cut")) for o, s in zip(want_ops, spec)}
+        nojudge = {o for o, s in zip(want_ops, spec) if unjudged(s)}
         for j, (k, lvl, stdins) in zip(jobs, meta):
             j[5] = [want["one %s %s 4000" % (encs[k], enc_text(i))][2].split(" ")[0] != "cut" for i in stdins]
         # the model's reading of the emitted program (IR semantics, Prog.run) on the same inputs
@@ -228,6 +231,8 @@ def main(tier, seed):
                 rep.violation("impl-vs-spec", {"what": "rustc rejects the emitted source at level %d" % lvl, "prog": encs[k], "rustc": cerr, "match_key": "rustc %d %s" % (lvl, encs[k])})
                 continue
             for i, (so, se, rc) in zip(stdins, runs):
+                if "one %s %s 4000" % (encs[k], enc_text(i)) in nojudge:
+                    rep.count("skipped-resource-limit"); continue
                 rep.count("compiled-run")
                 wo, we, wend = want["one %s %s 4000" % (encs[k], enc_text(i))]
                 wo = dec_text(wo or "-").encode("utf-8"); we = dec_text(we or "-").encode("utf-8")
@@ -256,6 +261,8 @@ def main(tier, seed):
                     if not same:
                         rep.violation("correspondence", {"what": "the executable differs from the model's IR semantics (Prog.run) at level %d" % lvl, "prog": encs[k], "stdin": enc_text(i),
                                                          "model": irr[:400], "got": {"stdout": so.decode("utf-8", "replace")[:300], "stderr": se.decode("utf-8", "replace")[:300], "status": rc}})
+                elif ok and unjudged(irr):
+                    rep.count("skipped-resource-limit")
                 elif ok and not mm:
                     rep.violation("correspondence", {"what": "the model's IR semantics gives no result", "prog": encs[k], "level": lvl, "model": irr[:200]})
                 if not ok:
